@@ -80,7 +80,8 @@ class C08(PropBase):
             tos = [n for n in ("c", "s") if w.s[n].inbox]
             if tos:
                 to = rng.choice(tos)
-                return {"op": "deliver", "to": to, "n": policy.chunk_len(rng, len(w.s[to].inbox), init["chunk"])}
+                bk, scr = policy.buf_kind(rng)
+                return {"op": "deliver", "to": to, "n": policy.chunk_len(rng, len(w.s[to].inbox), init["chunk"]), "buf": bk, "scribble": scr}
         if rng.random() < init["byz_p"]:
             return self._splice(st, rng, g)
         closed = [n for n in ("c", "s") if w.s[n].model.st == "CL"]
@@ -280,7 +281,9 @@ class C08(PropBase):
             if v == "error":
                 offender = lt
                 break
-        if not okk and not ev["exc"]["proto"]:
+        if not okk and not ev["exc"]["proto"] and exp[0] == "error":
+            st.hit("foreign_exception_where_error_expected")  # class is C05's statement; the state below is C08's
+        elif not okk and not ev["exc"]["proto"]:
             if ev.get("followed"):
                 # the exception class is C05's statement; C08 goes on and judges what the session does next against the
                 # documented state machine (the bytes were delivered, whatever the implementation did with them)
